@@ -96,6 +96,15 @@ def handle (op : String) (ins outs : List String) : List Out :=
     [flag "curve_index" (r.t0 == idx) s!"model index {r.t0}, implementation {idx}",
      bit "t" r.t1 (ov.getD 0 default), bit "distance" r.t2 (ov.getD 1 default),
      bit "point.x" r.t3.x (ov.getD 2 default), bit "point.y" r.t3.y (ov.getD 3 default)]
+  | "poly" =>
+    -- ins: #n c0 .. c(n-1); outs: (x y)*n of polynomial_to_bezier::<Coord2, N>.  Generated function at Float, bit for bit.
+    let n := parseNat (ins.headD "0")
+    let cs : List Float := ((ins.drop 1).take n).map (fun s => (⟨parseHex s⟩ : FV).f)
+    let ov : List FV := outs.map (fun s => ⟨parseHex s⟩)
+    let c := polynomial_to_bezier cs
+    flag "number_of_points" (c.length == n && ov.length == 2 * n) s!"model has {c.length} points, implementation {ov.length / 2}" ::
+      (List.range n).flatMap (fun i => [bit s!"poly.x" (c.getD i default).x (ov.getD (2 * i) default),
+                                         bit s!"poly.y" (c.getD i default).y (ov.getD (2 * i + 1) default)])
   | _ => [flag ("unknown-op " ++ op) false "driver does not know this operation"]
 
 end Driver.C09
